@@ -656,7 +656,7 @@ func master() int {
 	}
 	sort.Strings(sigs)
 	newViol := 0
-	var violSumm []map[string]any
+	violSumm := []map[string]any{}
 	minBudget := 60.0
 	if *fTier == "thorough" {
 		minBudget = 300
@@ -783,6 +783,7 @@ func master() int {
 		"runs_per_hour":       int(float64(runs) / (budgetSeconds() / 3600.0)),
 		"simulated_seconds":   simSecs,
 		"workers":             nw,
+		"seed_derivation":     "run i of worker w executes seed Mix(VERIF_SEED, w, i); one seed is one exactly repeatable execution (./check <id> --replay <file> for a recorded plan)",
 		"counters":            sortedStats(stats),
 		"violations_found":    violSumm,
 		"exhaustive":          false,
